@@ -2,7 +2,7 @@
    Reference codes: SpecArith.truediv_floor / floordiv_code / mod_code (integer codes of
    the optimal formats).  Model: Div.div_raw / Div.div_repr. *)
 From Coq Require Import ZArith List Bool.
-From FxpVerif Require Import Spec SpecArith NP Store ProofsCore Arith ProofsArith Div ProofsDiv.
+From FxpVerif Require Import Spec SpecArith NP Store ProofsCore Arith ProofsArith Div ProofsDiv ProofsDivModel.
 Import ListNotations.
 Open Scope Z_scope.
 
@@ -38,20 +38,42 @@ Theorem C09_mod_and_reconstruction : forall fx a fy b, b <> 0 ->
 Proof. exact reconstruct. Qed.
 Print Assumptions C09_mod_and_reconstruction.
 
-(* the model of the raw method computes exactly that code (operands of equal signedness, words
-   up to 26 bits; mixed signedness goes through float64 floor_divide and the repr method
-   through a rounded double quotient — those are covered by the correspondence run, where
-   the implementation must return one of the two neighbours) *)
-Theorem C09_truediv_raw_model_partial : forall fx fy a b r o,
-  same_sign_small fx fy -> in_range fx a -> in_range fy b -> b <> 0 ->
-  exists w, div_raw DTrue fx [a] fy [b] (grow_truediv fx fy) r o = Ok w /\
-    w_codes w = [truediv_floor fx a fy b] /\ w_ovf w = false /\ w_unf w = false.
-Proof. exact truediv_raw_model. Qed.
-Print Assumptions C09_truediv_raw_model_partial.
+(* the model of the raw method (_truediv_raw / _floordiv_raw / _mod_raw, then set_val(raw=True))
+   stores exactly those reference codes, with no flag, for operands of ANY signedness
+   combination (mixed signedness: float64 floor_divide / remainder, exact at these sizes),
+   words up to 26 bits, arrays of any positive length.  The repr method of x/y (a rounded
+   double quotient, then the configured rounding) is covered by the correspondence run,
+   where the implementation must return one of the two neighbours. *)
+Theorem C09_truediv_raw_model : forall fx fy cxs cys r o, div_small fx -> div_small fy ->
+  length cxs = length cys -> cxs <> [] -> Forall (in_range fx) cxs -> Forall (fun b => in_range fy b /\ b <> 0) cys ->
+  exists w, div_raw DTrue fx cxs fy cys (grow_truediv fx fy) r o = Ok w /\
+    w_codes w = map (fun p => truediv_floor fx (fst p) fy (snd p)) (combine cxs cys) /\ w_ovf w = false /\ w_unf w = false.
+Proof. exact truediv_raw_model_any. Qed.
+Print Assumptions C09_truediv_raw_model.
+
+Theorem C09_floordiv_raw_model : forall fx fy cxs cys r o, div_small fx -> div_small fy -> 1 <= nw (grow_floordiv fx fy) <= 53 ->
+  length cxs = length cys -> cxs <> [] -> Forall (in_range fx) cxs -> Forall (fun b => in_range fy b /\ b <> 0) cys ->
+  exists w, div_raw DFloor fx cxs fy cys (grow_floordiv fx fy) r o = Ok w /\
+    w_codes w = map (fun p => floordiv_code fx (fst p) fy (snd p)) (combine cxs cys) /\ w_ovf w = false /\ w_unf w = false.
+Proof. exact floordiv_raw_model_any. Qed.
+Print Assumptions C09_floordiv_raw_model.
+
+Theorem C09_mod_raw_model : forall fx fy cxs cys r o, div_small fx -> div_small fy ->
+  length cxs = length cys -> cxs <> [] -> Forall (in_range fx) cxs -> Forall (fun b => in_range fy b /\ b <> 0) cys ->
+  exists w, div_raw DMod fx cxs fy cys (grow_mod fx fy) r o = Ok w /\
+    w_codes w = map (fun p => mod_code fx (fst p) fy (snd p)) (combine cxs cys) /\ w_ovf w = false /\ w_unf w = false.
+Proof. exact mod_raw_model_any. Qed.
+Print Assumptions C09_mod_raw_model.
+
+(* the floor quotient and the modulo never overflow their optimal formats *)
+Theorem C09_floordiv_mod_no_overflow : forall fx a fy b, div_small fx -> div_small fy -> in_range fx a -> in_range fy b -> b <> 0 ->
+  in_range (grow_floordiv fx fy) (floordiv_code fx a fy b) /\ in_range (grow_mod fx fy) (mod_code fx a fy b).
+Proof. intros. split; [apply floordiv_in_range | apply mod_in_range]; assumption. Qed.
+Print Assumptions C09_floordiv_mod_no_overflow.
 
 Example C09_nonvacuous :
   let fx := {| sg := true; nw := 5; nf := 2 |} in let fy := {| sg := true; nw := 4; nf := 1 |} in
-  same_sign_small fx fy /\ in_range fx (-7) /\ in_range fy 3 /\
+  div_small fx /\ div_small fy /\ in_range fx (-7) /\ in_range fy 3 /\
   truediv_floor fx (-7) fy 3 = -19 /\ floordiv_code fx (-7) fy 3 = -2 /\ mod_code fx (-7) fy 3 = 5 /\
   div_raw DTrue fx [-7] fy [3] (grow_truediv fx fy) Trunc Saturate = Ok {| w_codes := [-19]; w_ovf := false; w_unf := false; w_inacc := false |}.
-Proof. cbv zeta. unfold same_sign_small, in_range. repeat split; try (vm_compute; reflexivity); cbn; discriminate. Qed.
+Proof. cbv zeta. unfold div_small, in_range. repeat split; try (vm_compute; reflexivity); cbn; discriminate. Qed.
